@@ -33,6 +33,11 @@ class Violation(Exception):
         self.step = step
 
 
+class UnexecutableGraph(Exception):
+    """The graph handed to the simulated scheduler is not closed/acyclic: no order can run it
+    (what a real scheduler reports as 'Missing dependency')."""
+
+
 class Invalid(Exception):
     """The generated/shrunk case cannot be built; discarded, never reported."""
 
@@ -110,14 +115,24 @@ def is_exact_dtype(dt) -> bool:
 
 def same_value(a, b, exact=None, rtol=1e-9):
     """Comparison policy (DESIGN 3.5). Returns None if equal else a short reason."""
-    if isinstance(a, tuple) and isinstance(b, tuple):
+    if isinstance(a, (tuple, list)) and isinstance(b, (tuple, list)):
         if len(a) != len(b):
-            return f"tuple length {len(a)} != {len(b)}"
+            return f"sequence length {len(a)} != {len(b)}"
         for i, (x, y) in enumerate(zip(a, b)):
             r = same_value(x, y, exact, rtol)
             if r:
                 return f"[{i}] {r}"
         return None
+    if isinstance(a, dict) and isinstance(b, dict):
+        if sorted(a, key=repr) != sorted(b, key=repr):
+            return f"dict keys differ: {sorted(a, key=repr)} vs {sorted(b, key=repr)}"
+        for k in sorted(a, key=repr):
+            r = same_value(a[k], b[k], exact, rtol)
+            if r:
+                return f"[{k!r}] {r}"
+        return None
+    if isinstance(a, (dict, tuple, list)) != isinstance(b, (dict, tuple, list)):
+        return f"container vs array ({type(a).__name__} vs {type(b).__name__})"
     am = isinstance(a, np.ma.MaskedArray)
     bm = isinstance(b, np.ma.MaskedArray)
     if am != bm:
@@ -157,6 +172,12 @@ def same_value(a, b, exact=None, rtol=1e-9):
     if a.dtype.kind in "mM":
         return None if np.array_equal(a, b) else "values differ (datetime)"
     if a.dtype.kind == "V":
+        if a.dtype.names:
+            for nm in a.dtype.names:
+                r = same_value(a[nm], b[nm], exact, rtol)
+                if r:
+                    return f"field {nm}: {r}"
+            return None
         return None if a.tobytes() == b.tobytes() else "values differ (void)"
     return None if np.array_equal(a, b) else "values differ"
 
